@@ -74,7 +74,7 @@ def run_one(res, ctx, root, rng, idx):
         if sib:
             (f.parent / (f.name + ".license")).write_text("SPDX-FileCopyrightText: 1999 Sibling\n")
     cause = rng.choice(["terminator", "terminator", "terminator", "terminator", "template-both", "template-one", "none", "single-line",
-                        "multi-line", "mutex"])
+                        "multi-line", "mutex", "style-vs-line-mode"])
     dot = rng.choice([None, None, "--force-dot-license", "--fallback-dot-license", "--skip-unrecognised"])
     args = ["-l", "MIT", "--year", "2020"]
     holder = "Jane Doe"
@@ -95,6 +95,14 @@ def run_one(res, ctx, root, rng, idx):
         args.append("--single-line")
     if cause == "multi-line":
         args.append("--multi-line")
+    forced = None
+    if cause == "style-vs-line-mode":
+        # the forced style decides whether --single-line / --multi-line can be honoured, whatever the file names suggest
+        forced, lm = rng.choice([("c", "--single-line"), ("html", "--single-line"), ("python", "--multi-line"), ("lisp", "--multi-line"),
+                                 ("cpp", "--single-line"), ("cpp", "--multi-line"), ("python", "--single-line"), ("html", "--multi-line")])
+        args += ["--style", forced, lm]
+        if dot == "--skip-unrecognised":
+            dot = None
     if cause == "mutex":
         args += rng.choice([["--single-line", "--multi-line"], ["--year", "2021", "--exclude-year"],
                             ["--force-dot-license", "--skip-unrecognised"], ["--style", "python", "--skip-unrecognised"]])
@@ -106,11 +114,15 @@ def run_one(res, ctx, root, rng, idx):
 
     # ---------------- expectation per file
     usage = cause == "mutex"
+    if forced:
+        fst = ctx.state["styles"][forced]
+        if ("--single-line" in args and not fst["single"]) or ("--multi-line" in args and not (fst["multi"][0] and fst["multi"][2])):
+            usage = True
     exp = {}
     for j, (k, f, sib) in enumerate(zip(kinds, files, siblings)):
         style = KINDS[k][1]
         to_license = sib or k == "bin" or dot == "--force-dot-license" or (k == "unrec" and dot == "--fallback-dot-license")
-        if k in ("unrec", "bin") and not sib and dot is None:
+        if k in ("unrec", "bin") and not sib and dot is None and not forced:
             usage = True  # no recognised comment style and no option saying what to do
         # the pre-flight line-handling check looks at the path annotate will open: FILE.license when it already exists
         if cause in ("single-line", "multi-line"):
@@ -126,6 +138,8 @@ def run_one(res, ctx, root, rng, idx):
             exp[j] = "skip"
         elif template:
             exp[j] = "fail"
+        elif forced:
+            exp[j] = "any"  # layer 1 only: which files a forced foreign style can annotate is not this property's business
         elif to_license:
             exp[j] = "ok"
         elif k == "badhdr":
